@@ -693,7 +693,12 @@ func init() {
 				})
 			}
 		}
-		fmt.Fprintf(&sb, "/-- which constructor runs which loop, with the loop's last argument -/\ndef batchLoopCalls : List String := %s\n", leanStrList(timedCalls))
+		fmt.Fprintf(&sb, "/-- which constructor runs which loop, with the loop's last argument -/\ndef batchLoopCalls : List String := %s\n\n", leanStrList(timedCalls))
+		// Round 4d: the expression context as an object that lives over many matches – its fields, what every method
+		// reads / may write, what processLineSync assigns before it hands the context on, who else constructs or
+		// assigns one (the walker is C16's, harness/extract/c16ctx.go; the lists are emitted here under Gen.C02 so that
+		// the C02 theorems about capture values over a history depend on nothing but this file)
+		sb.WriteString(c16EmitCtx(c))
 		sb.WriteString("\nend Rare.Gen.C02\n")
 		return sb.String()
 	})
